@@ -449,13 +449,19 @@ func NewRoster(ids []*network.ServerIdentity) *Roster {
 	r.List = append(r.List, ids...)
 
 	if len(ids) != 0 {
-		// compute the aggregate key, using the first server's
-		// public key to discover which kyber.Group we should be
-		// using.
-		agg := ids[0].Public.Clone()
-		agg.Null()
+		// compute the aggregate key as the sum of the public keys,
+		// starting from a copy of the first one. The copy is never
+		// overwritten in place (Null): some key types share memory
+		// between a key and its Clone (Residue512), and overwriting the
+		// copy corrupted the first server's public key.
+		var agg kyber.Point
 		for _, e := range ids {
-			if e.Public != nil {
+			if e.Public == nil {
+				continue
+			}
+			if agg == nil {
+				agg = e.Public.Clone()
+			} else {
 				agg = agg.Add(agg, e.Public)
 			}
 		}
